@@ -5,6 +5,8 @@ PROP = {
         {"component": "net", "comp_num": 70, "quick": 640, "thorough": 40000, "args": ["--stream", "2"], "timeout": 3000},
         {"component": "port", "comp_num": 1, "quick": 800, "thorough": 30000, "timeout": 3000},
         {"component": "endpoint", "comp_num": 7, "quick": 600, "thorough": 30000, "timeout": 3000},
+        # the typed channels built on ports: items in transit while the receiving side cancels, closes or drops
+        {"component": "base", "comp_num": 4, "quick": 400, "thorough": 16000, "timeout": 3000},
     ],
     "design_ref": "DESIGN.md section 5, C11",
     "level_text": "Theorems (Coq, closed under the global context): for every schedule of the port-flow system, when the receiver observes end-of-stream "
